@@ -46,7 +46,10 @@ sits in front of it; it took a from-scratch reference built from the requested n
 oracles through the public interface and the regenerated call-site lists (section 3.3) to see them.  Two wave-4 changes (C16-m7, C16-m8)
 leave the observation point of their property (`point_polygon_check`) untouched and are caught by C04, whose clause they break; one
 (C10-m7) is a loader change caught by C17.  One change (C15-m8) exposed a genuine defect of the unchanged tree (F23) because catching it
-needed a reference that did not come from the implementation.  Changes to *translated* functions are always
+needed a reference that did not come from the implementation.  The whole set was also run with other PRNG seeds (`VERIF_SEED=1`, the seed `vp check` uses): three
+changes (C04-m5, C10-m6, C14-m4) turned out to be caught by a random draw of the default seed only and each got a directed, seed-independent
+input family; thirteen changes that were reported through a broken obligation alone (`no-failing-input-found`) were used to extend the oracles
+until ten of them are reported with a concrete failing input.  Changes to *translated* functions are always
 caught twice: the regenerated definition no longer satisfies the theorem (broken obligation) and the oracle finds an input.
 """
 p = os.path.join(V, "DESIGN.md")
